@@ -113,13 +113,15 @@ func (c *Container) CloseWithErrors(h *Handler) (err error) {
 	return
 }
 
+// CloseAll closes every handler and returns the first error that occurred.
 func (c *Container) CloseAll() error {
+	var err error
 	for k := range c.m {
-		if err := c.Close(c.m[k]); err != nil {
-			return err
+		if e := c.Close(c.m[k]); e != nil && err == nil {
+			err = e
 		}
 	}
-	return nil
+	return err
 }
 
 func (c *Container) CloseAllWithErrors() error {
